@@ -741,10 +741,12 @@ class _ConnectionRecord(ConnectionPoolEntry):
     def _checkin_failed(
         self, err: BaseException, _fairy_was_created: bool = True
     ) -> None:
-        self.invalidate(e=err)
-        self.checkin(
-            _fairy_was_created=_fairy_was_created,
-        )
+        try:
+            self.invalidate(e=err)
+        finally:
+            self.checkin(
+                _fairy_was_created=_fairy_was_created,
+            )
 
     def checkin(self, _fairy_was_created: bool = True) -> None:
         if self.fairy_ref is None and _fairy_was_created:
@@ -878,10 +880,14 @@ class _ConnectionRecord(ConnectionPoolEntry):
         if self.__pool.dispatch.close:
             self.__pool.dispatch.close(self.dbapi_connection, self)
         assert self.dbapi_connection is not None
-        self.__pool._close_connection(
-            self.dbapi_connection, terminate=terminate
-        )
-        self.dbapi_connection = None
+        try:
+            self.__pool._close_connection(
+                self.dbapi_connection, terminate=terminate
+            )
+        finally:
+            # also when a BaseException escapes the DBAPI close(): the
+            # connection must not be handed out again
+            self.dbapi_connection = None
 
     def __connect(self) -> None:
         pool = self.__pool
